@@ -236,6 +236,11 @@ func genDescription(t *rapid.T, b *docBuilder) string {
 
 func genControlDoc(t *rapid.T) TypedDocCase {
 	b := newDocBuilder()
+	if rapid.IntRange(0, 3).Draw(t, "blankStyleOn") == 0 {
+		// debian/control is written by hand: elements of a blank-separated list are as often
+		// aligned with several blanks or tabs, or folded under the first, as joined by one blank
+		b.blankStyle = rapid.IntRange(1, 5).Draw(t, "blankStyle")
+	}
 	acc := map[string][]string{}
 	se := newExp()
 	src := genPkgName(t, "src")
@@ -876,7 +881,7 @@ func genPackageListLine(t *rapid.T, label, bin string) string {
 
 var specC10 = Register(&Spec[TypedDocCase]{
 	Prop: "C10", Name: "typed",
-	Rule:  "six document kinds rendered from a field model in the layout the Debian tools emit: .dsc (Binary 'a, b, c' single-line or folded, Architecture list, Uploaders, Build-Depends* single-line / folded / wrap-and-sort, Package-List lines of 4 to 8 columns (arch=, profile=, protected=, essential=), Checksums-Sha1/-Sha256, Files), .changes (space-separated Binary, Closes, multi-line Description and Changes with ' .', 5-column Files), debian/control (source paragraph + 1..4 binary paragraphs, folded Uploaders and dependency fields with substvars, Essential, multi-line Description), Packages and Sources indexes of 1..4 paragraphs or (one in 25) the same paragraphs repeated to 1025 .. 4100; Packages (Source 'name (ver)', Installed-Size, folded Tag, Build-Ids, dependency accessors over single-line, folded and one-relation-per-line fields), Sources (folded Binary, Standards-Version, Vcs-*, Directory, accessors) and DEBIAN/control (decoded from text and, packed into control.tar / control.tar.gz of a minimal .deb, through deb.Load; one in twelve with a description that takes the control file beyond 32 KiB); unknown X- fields sprinkled in; the bufio.Reader handed to the Parse* functions has a generated size 16..65536 and reads from a plain, one-byte, half or data-with-EOF reader. Oracle: every struct field whose Debian field is in the model equals the model (scalars verbatim / reader convention, versions by parts, architectures by triple, dependencies against the model AST, comma/space lists as trimmed elements, file lists as (algorithm, hash, size, name[, section, priority])), accessors agree with the model. Non-trivial: a folded field, >= 2 binaries, >= 2 files or >= 2 paragraphs; distinct by (kind, text, buffer size).",
+	Rule:  "six document kinds rendered from a field model in the layout the Debian tools emit: .dsc (Binary 'a, b, c' single-line or folded, Architecture list, Uploaders, Build-Depends* single-line / folded / wrap-and-sort, Package-List lines of 4 to 8 columns (arch=, profile=, protected=, essential=), Checksums-Sha1/-Sha256, Files), .changes (space-separated Binary, Closes, multi-line Description and Changes with ' .', 5-column Files), debian/control (source paragraph + 1..4 binary paragraphs, the Architecture list in a quarter of the documents laid out by hand - two blanks, a tab, folded under the first element, folded behind a tab -, folded Uploaders and dependency fields with substvars, Essential, multi-line Description), Packages and Sources indexes of 1..4 paragraphs or (one in 25) the same paragraphs repeated to 1025 .. 4100; Packages (Source 'name (ver)', Installed-Size, folded Tag, Build-Ids, dependency accessors over single-line, folded and one-relation-per-line fields), Sources (folded Binary, Standards-Version, Vcs-*, Directory, accessors) and DEBIAN/control (decoded from text and, packed into control.tar / control.tar.gz of a minimal .deb, through deb.Load; one in twelve with a description that takes the control file beyond 32 KiB); unknown X- fields sprinkled in; the bufio.Reader handed to the Parse* functions has a generated size 16..65536 and reads from a plain, one-byte, half or data-with-EOF reader. Oracle: every struct field whose Debian field is in the model equals the model (scalars verbatim / reader convention, versions by parts, architectures by triple, dependencies against the model AST, comma/space lists as trimmed elements, file lists as (algorithm, hash, size, name[, section, priority])), accessors agree with the model. Non-trivial: a folded field, >= 2 binaries, >= 2 files or >= 2 paragraphs; distinct by (kind, text, buffer size).",
 	Check: checkTypedDoc,
 })
 
